@@ -68,6 +68,9 @@ pub struct Sched {
     pub last_tick_thread: usize,
     pub consec: u64,
     pub deadline_waiters: usize,
+    pub progress_steps: u64,
+    pub progress_clock: u64,
+    pub progress_mark: u64,
 }
 
 static SCHED: Mutex<Option<Sched>> = Mutex::new(None);
@@ -256,6 +259,20 @@ impl Sched {
         die(3, &format!("VERDICT deadlock {fp}"))
     }
 
+    fn livelock(&self) -> ! {
+        let (fp, extra) = DUMP.lock().unwrap_or_else(|e| e.into_inner()).as_ref().map(|f| f()).unwrap_or_default();
+        let mut v: Vec<_> = self.sites.iter().collect();
+        v.sort_by_key(|e| std::cmp::Reverse(*e.1));
+        let top: Vec<String> = v.iter().take(6).map(|((f, l), c)| format!("{}:{l}={c}", short(f))).collect();
+        // the spinning code: the files of the three hottest sites
+        let mut files: Vec<&str> = v.iter().take(3).map(|((f, _), _)| short(f)).collect();
+        files.sort();
+        files.dedup();
+        out(&format!("STATS {}", self.stats_json()));
+        out(&format!("DETAIL spinning for {} virtual s without progress; threads={} top={:?} actors={}", (self.clock - self.progress_clock) / 1_000_000_000, self.dump(), top, extra));
+        die(3, &format!("VERDICT deadlock livelock[{}] {fp}", files.join("+")))
+    }
+
     fn budget(&self) -> ! {
         let mut v: Vec<_> = self.sites.iter().collect();
         v.sort_by_key(|e| std::cmp::Reverse(*e.1));
@@ -320,10 +337,20 @@ pub fn point(loc: &'static Location<'static>) {
     let tick = 100u64 << (s.consec / 64).min(14);
     s.clock += tick;
     s.tick_total += tick;
-    s.wake_expired(false, false);
+    s.wake_expired(false, true);
     *s.sites.entry((loc.file(), loc.line())).or_insert(0) += 1;
     if s.steps > s.max_steps {
         s.budget();
+    }
+    // livelock: no useful event (coroutine resume, effective notify, thread start/finish,
+    // expired foreground wait) for more than 50000 schedule points AND 60 virtual seconds,
+    // although every sleeper, stalled thread and idle worker has come back many times
+    if s.useful != s.progress_mark {
+        s.progress_mark = s.useful;
+        s.progress_steps = s.steps;
+        s.progress_clock = s.clock;
+    } else if s.steps - s.progress_steps > 50_000 && s.clock - s.progress_clock > 60_000_000_000 {
+        s.livelock();
     }
     if s.run_left > 0 {
         s.run_left -= 1;
@@ -594,6 +621,9 @@ pub fn init(max_steps: u64) {
         last_tick_thread: usize::MAX,
         consec: 0,
         deadline_waiters: 0,
+        progress_steps: 0,
+        progress_clock: T0,
+        progress_mark: 0,
     });
     TID.with(|t| t.set(0));
     drop(g);
